@@ -7,7 +7,7 @@ from . import core, generic
 def check(run):
     run._binary = run.build_harness()
     try:
-        n, s = generic.gen_replay(run, "Flash", "MC_Flash.cfg", "TestC12", "flash", workers=4, memlimit_gb=24)
+        n, s = generic.gen_replay(run, "Flash", "MC_Flash_thorough.cfg" if run.tier == "thorough" else "MC_Flash.cfg", "TestC12", "flash", workers=4, memlimit_gb=24)
     except core.Inconclusive as e:
         if "out of memory" in str(e):
             # the code under test exhausted the address space while decoding a hostile cookie: that is the observation
